@@ -56,6 +56,21 @@ def run(ctx):
     trace = ctx.tmp("trace.ndjson")
     gr = ctx.go_test("promql", ["c33_indep_test.go"], "^TestVerifC33$", env={"VERIF_IN": inp, "VERIF_TRACE": trace}, timeout="40m")
     ctx.absorb(gr, label="C33 run")
+    # thorough: the same run under the Go race detector (a data race between two evaluations is a
+    # dependence even when it did not corrupt a result this time)
+    if not q or os.environ.get("VERIF_C33_RACE"):
+        sub = ctx.write_ndjson("batches_race.ndjson", batches[:60])
+        gr2 = ctx.go_test("promql", ["c33_indep_test.go"], "^TestVerifC33$", race=True, out_name="result_race.ndjson",
+                          env={"VERIF_IN": sub, "VERIF_TRACE": ctx.tmp("trace_race.ndjson")}, timeout="60m")
+        races = gr2.out.count("WARNING: DATA RACE")
+        ctx.extra["c33_race_detector_reports"] = races
+        if races:
+            i = gr2.out.index("WARNING: DATA RACE")
+            ctx.add_violation("Go race detector: %d data race report(s) while evaluating generated queries concurrently:\n%s"
+                              % (races, gr2.out[i:i + 3000]), "data-race", {"batches": len(batches[:60])})
+        else:
+            ctx.absorb(gr2, label="C33 race run")
+        ctx.log("race-detector run: %d reports (%.0fs)" % (races, gr2.wall))
     # the law on the recorded behaviour
     if os.environ.get("VERIF_C33_CORRUPT_TRACE") and os.path.exists(trace):
         # binding self-test: flip the digest of the last "end" event of the recorded trace
